@@ -69,6 +69,20 @@ QUICK_SKIP = set()
 CLASS_ONLY = {"C05"}
 
 
+def _c05_not_a_range(case):
+    """C05's irg_* / mins_* families with a negative count hand the container an iterator pair that is NOT a range (last before
+    first): reading the SOURCE past its array is the caller's undefined behaviour (ASan sees that read before the vector's
+    !full() check can fire) -- not valid use, outside C02"""
+    t = case.split()
+    try:
+        return len(t) >= 5 and t[0] == "vec" and t[2].startswith(("irg", "mins")) and int(t[-1]) < 0
+    except ValueError:
+        return False
+
+
+OUTSIDE_DOMAIN = {"C05": _c05_not_a_range}
+
+
 def gen(tier, rng):
     out = []
     for which in range(0, N_BATTERIES):
@@ -81,6 +95,13 @@ def gen(tier, rng):
         out.append(f"default_init {t}")
     out += _tofloat_cases(tier, rng)
     out += _fromfloat_cases(tier, rng)
+    # copy construction / copy assignment with an element type whose copy constructor throws after <countdown> copies
+    for kind in ("sv", "iv"):
+        for assign in (0, 1):
+            for te in ((0,) if not assign else (0, 1, 4)):
+                for se in (0, 1, 3, 4):
+                    for cd in range(-1, se + 1):
+                        out.append(f"throwing {kind} {assign} {te} {se} {cd}")
     return out
 
 
@@ -147,6 +168,34 @@ def _variants(prop):
                 1 if h.get("thorough_only") else 0)
     cands.sort(key=rank)
     return cands
+
+
+
+def setup_extra_builds():
+    """(package, harness variant) pairs the quick tier of C02 compiles besides its own HARNESSES — the best sanitizer variant of
+    every aggregated package (incl. thorough_only ones and the derived `c02san` builds); `make setup` pre-compiles them so that
+    the first ./check C02 does not pay for ~20 sanitizer builds"""
+    from vlib import engine
+    jobs = []
+    for pid in AGGREGATE:
+        try:
+            prop = engine.load_prop(pid)
+        except Exception:  # noqa
+            continue
+        hs = _variants(prop)
+        if not hs:
+            all_hs = list(getattr(prop, "HARNESSES", []))
+            if not all_hs:
+                continue
+            h = dict(all_hs[0])
+            h["name"] = "c02san"
+            h["flags"] = list(h.get("flags", [])) + SAN + ["-g0"]
+            h.pop("thorough_only", None)
+            hs = [h]
+        if pid in QUICK_SKIP:
+            continue
+        jobs.append((pid, hs[0]))
+    return jobs
 
 
 def _one_package(pid, tier, seed):
@@ -225,11 +274,22 @@ def _one_package(pid, tier, seed):
             m = engine.split_legs(b)[0]
             if e == "skip":
                 continue   # the package's sanitizer variant deliberately skips this case
+            if pid in OUTSIDE_DOMAIN and OUTSIDE_DOMAIN[pid](c):
+                res["outside_domain"] = res.get("outside_domain", 0) + 1
+                continue
             res["cases"] += 1
             if e.startswith("crash"):
                 res["crash"] += 1
             if pid in CLASS_ONLY:
                 e, m = e.split(" ", 1)[0], m.split(" ", 1)[0]
+                if m not in ("ok", "contract"):
+                    # the package's model itself classifies the input as outside what a check can stop (C05: `invalid-range`,
+                    # an iterator pair that is not a range -- undefined by the standard, the caller's violation): not valid use
+                    res["outside_domain"] = res.get("outside_domain", 0) + 1
+                    res["cases"] -= 1
+                    if e.startswith("crash"):
+                        res["crash"] -= 1
+                    continue
             if e != m:
                 res["disagree"] += 1
                 if len(res["examples"]) < 3:
